@@ -10,6 +10,7 @@ This is the model of an *external* component; it is differentially tested agains
 on every run (streams L and M of the harness).
 -/
 namespace Grexv.Spec
+open Grexv (inRanges)
 
 inductive ClassKind where | digit | space | word
 deriving DecidableEq, Repr, Inhabited
@@ -36,8 +37,6 @@ structure Flags where
   i : Bool := false
   x : Bool := false
 deriving DecidableEq, Repr, Inhabited
-
-def inRanges (t : List (Nat × Nat)) (c : Nat) : Bool := t.any fun r => r.1 ≤ c && c ≤ r.2
 
 def perlMember (k : ClassKind) (c : Nat) : Bool :=
   match k with
